@@ -19,7 +19,7 @@ with open(os.path.join(S, 'README.md'), 'w') as fh:
 Each directory holds a change to nickovic/rtamt written by an independent sub-agent that was given only the text of one
 property and a scratch git worktree (nothing from /verif): `patch.diff`, the demonstration `demo.py` (PASS without the
 change, FAIL with it; the 509 tests still pass with it) and `meta.json` (what it needs in order to manifest, what was run).
-Suffixes: none/b = rounds 1-2, c..l = rounds 3-12 (each later agent was told the earlier changes of its property and asked
+Suffixes: none/b = rounds 1-2, c..m = rounds 3-13 (each later agent was told the earlier changes of its property and asked
 for another mechanism; from round 7 on a required flavour of manifestation was assigned, DESIGN.md section 8).
 `caught by` lists the registered quick checks (seed 0) that exit 1 on the patched tree, as measured by
 `tools/seedcheck.sh` / `tools/seed_report.py` on a scratch copy when the round was closed (`meta.json: checks_commit`);
